@@ -255,9 +255,12 @@ func main() {
 		}
 		b0 := w1[0]
 		alone := map[string]bool{}
-		r := &rnd{s: *seed}
-		for i := 0; i < 64; i++ {
-			ops[*b](e, r, i)
+		// B is made deterministic here (same arguments on every call) so that the blocks it emits alone are ALL the
+		// blocks it can legitimately emit
+		detB := func(e *env, _ *rnd, _ int) { ops[*b](e, &rnd{s: *seed}, 0) }
+		ops["<B>"] = detB
+		for i := 0; i < 8; i++ {
+			detB(e, nil, 0)
 			for _, w := range e.tty.TakeWrites() {
 				alone[string(w)] = true
 			}
@@ -272,7 +275,7 @@ func main() {
 			return
 		}
 		go runLoop(e, "Sync", *seed+1, &ca)
-		go runLoop(e, *b, *seed, &cb)
+		go runLoop(e, "<B>", *seed, &cb)
 		time.Sleep(dur)
 		atomic.StoreInt32(&e.stop, 1)
 		time.Sleep(20 * time.Millisecond)
